@@ -15,18 +15,6 @@ Definition two (regs : list elem) (dr pr : option text) (pst : smap) : doc :=
         [] 15 32 1080 1920 None None [].
 Definition pc (z : Z) : len := mkLen (inject_Z z) Upct.
 
-(* lcd-position: the filter fails on a region with tts:position 10% 10% and tts:extent 80% 80% *)
-Theorem C16_total_refuted_position : exists c d, lcd_typed d = true /\ lcd c d = Err errCompute.
-Proof.
-  exists dflt, (two [el KRegion (Some r0) None None [(p_Position, VPos (pc 10) 0 (pc 10) 0); (p_Extent, VExtent (pc 80) (pc 80))] []] (Some r0) None []).
-  split; vm_compute; reflexivity.
-Qed.
-(* lcd-position-survives: tts:position on a paragraph is still there *)
-Theorem C16_whitelist_refuted : exists c d d', lcd c d = Ok d' /\ whitelist_b (c_pta c) (c_color c) (c_bg c) d' = false.
-Proof.
-  exists dflt, (two [el KRegion (Some r0) None None [] []] (Some r0) None [(p_Position, VPos (pc 10) 0 (pc 10) 0)]). eexists.
-  split; vm_compute; reflexivity.
-Qed.
 (* lcd-nested-region-conflict: <div region=r0><p region=r1>: nothing visible before, the text visible after *)
 Theorem C16_timeline_refuted_nested : exists c d d' t,
   lcd c d = Ok d' /\ no_hiding_b d = true /\ visible d t = [] /\ visible d' t <> [].
@@ -45,5 +33,4 @@ Proof.
   split; [vm_compute; reflexivity|]. split; reflexivity.
 Qed.
 
-Print Assumptions C16_total_refuted_position.  Print Assumptions C16_whitelist_refuted.
 Print Assumptions C16_timeline_refuted_nested.  Print Assumptions C16_writing_mode_ignored.
